@@ -258,6 +258,14 @@ def sweep(ctx: Ctx):
         sub = OneDGrid(a_ + (b_ - a_) * (g5.points + 1) / 2, g5.weights * (b_ - a_) / 2, (a_, b_))
         half.append((cname + "-sub", f"{cname}({', '.join(f'{k}={v}' for k, v in p0.items())}).transform_1d_grid(GaussLegendre(5) scaled to ({a_}, {b_}))",
                      lambda c=cname, q=p0: _tf(c, q), sub, None))
+    # hand-written closed rules whose nodes are stored as INTEGER arrays (Simpson [-1, 0, 1], trapezoid [-1, 1], ...)
+    for cname in classes:
+        p0 = FIXED_INV[cname]
+        nodes = {"MultiExpRTransform": [0, 1]}.get(cname, [-1, 0] if cname in ("BeckeRTransform", "KnowlesRTransform", "HandyRTransform") else [-1, 0, 1])
+        wts = [1 / 3, 4 / 3, 1 / 3] if len(nodes) == 3 else [1.0, 1.0]
+        for dt in (np.int64, np.int32):
+            half.append((cname + "-intnodes", f"{cname}({', '.join(f'{k}={v}' for k, v in p0.items())}).transform_1d_grid(OneDGrid(np.array({nodes}, dtype={np.dtype(dt).name}), {[round(v, 4) for v in wts]}, (-1, 1)))",
+                         lambda c=cname, q=p0: _tf(c, q), OneDGrid(np.array(nodes, dtype=dt), np.array(wts), (-1, 1)), None))
     for kcls, desc, mk, rule, img in half:
         try:
             tf = mk()
